@@ -83,7 +83,7 @@ def make_sim(case):
         sim = HidSim(drv, initial_seq=case.get("seq0", 1), reconnect_interval=case.get("reconnect_interval", 1),
                      reconnect_limit=case.get("reconnect_limit"), exceptions_on_send=case.get("exceptions", True),
                      present=case.get("present_at_start", True), dev_inst_map=case.get("_dev_inst_map"),
-                     glob=case.get("glob", False))
+                     glob=case.get("glob", False), status_neighbours=case.get("status_neighbours"))
     else:
         sim = SerialSim(drv)
     sim.latencies = list(case.get("lat", []))
